@@ -58,6 +58,9 @@ class TimestampType(IntType, prim='timestamp'):  # type: ignore
         if mode in ['optimized', 'legacy_optimized']:
             return {'int': str(self.value)}
         elif mode == 'readable':
+            # timestamps that have no RFC 3339 notation (outside of years 1000-9999) are rendered as integers
+            if not -30610224000 <= self.value <= 253402300799:
+                return {'int': str(self.value)}
             return {'string': format_timestamp(self.value)}
         else:
             raise AssertionError(f'unsupported mode {mode}')
